@@ -13,7 +13,7 @@ from vlib import defs
 from vlib.runner import Refused, Violation, sut
 
 ID = "C16"
-BUDGET = {"quick": 1600, "thorough": 30000}
+BUDGET = {"quick": 1600, "thorough": 160000}
 RULE = ("Generated: every construction algorithm with drawn arguments — RandomBinaryTree(n 1..10, depth None / "
         "0..ceil(log2 n), repetitions 1..3, seed), LinearTree(n, repetitions, ordering permutation / None, "
         "randomize, seed), FullyFactorized(n, repetitions), QuadTree(shape (C,H,W) in 1..2 x 1..4 x 1..4, splits "
